@@ -1,5 +1,5 @@
 (* GENERATED on every run by harness/C07.py translate() with translate/pyexpr2coq.py from
-   /tmp/mt-3643-747/psiaudio/util.py and /tmp/mt-3643-747/psiaudio/calibration.py - do not edit.
+   /repo/psiaudio/util.py and /repo/psiaudio/calibration.py - do not edit.
    sens = self.get_sens(frequency); interp = self._interp(frequency); constructors: the `sensitivity` they pass on. *)
 From Coq Require Import Reals.
 From PV Require Import Calib.RBase.
@@ -32,7 +32,7 @@ Definition cal_get_gain (sens level attenuation : R) : R :=
 (* psiaudio/calibration.py:235  FlatCalibration.get_sens *)
 Definition flat_get_sens (sensitivity fixed_gain : R) : R :=
   (Rminus sensitivity fixed_gain).
-(* psiaudio/calibration.py:336  InterpCalibration.get_sens *)
+(* psiaudio/calibration.py:332  InterpCalibration.get_sens *)
 Definition interp_get_sens (interp fixed_gain : R) : R :=
   (Rminus interp fixed_gain).
 (* psiaudio/calibration.py:241  FlatCalibration.get_mean_sf *)
